@@ -9,7 +9,8 @@ Inductive tobs := TObs (done : bool) (begin scan : N) (joined : bool).
 Inductive c18_case :=
 | RoleCase (k : kind) (r : role) (proxy : bool) (l : reach) (obs : effects)
 | SchedCase (leader0 frev0 : N) (ls : list label) (a b : tobs) (sets : list (N * N))    (* sets: (value before, value written) *)
-| OverlapCase (r : N) (l : reach) (b_resp : rclass) (sets : list N) (a_scan : N) (a_nonempty : bool).
+| OverlapCase (r : N) (l : reach) (b_resp : rclass) (sets : list N) (a_scan : N) (a_nonempty : bool)
+| FollowCase (m : rmode) (v : revsel) (r1 r2 : N) (sets : list N) (hdr2 : N).   (* second read after the leader moved from r1 to r2 *)
 
 Definition rclass_eqb (a b : rclass) : bool :=
   match a, b with
@@ -48,6 +49,8 @@ Definition c18_check (c : c18_case) : bool :=
       let s := run_code (i_init l0 f0) ls in
       tobs_eqb (obs_of_thr (i_a s)) a && tobs_eqb (obs_of_thr (i_b s)) b
       && list_eqb pair_eqb (map (fun x => match x with (_, before, v) => (before, v) end) (i_sets s)) sets
+  | FollowCase m v r1 r2 sets hdr2 =>
+      let '(ss, h) := follow_model r1 r2 in list_eqb N.eqb ss sets && (h =? hdr2)
   | OverlapCase r l b_resp sets a_scan a_nonempty =>
       let '(br, ss, sc) := overlap_model r l in
       rclass_eqb br b_resp && list_eqb N.eqb ss sets && (sc =? a_scan) && Bool.eqb (0 <? sc) a_nonempty
@@ -114,6 +117,9 @@ Definition c18_oracle (c : c18_case) : option N :=
       else if existsb (fun x => snd x <? fst x) sets then Some F_set_race
       else if (negb (tobs_fresh a) && tobs_joined a) || (negb (tobs_fresh b) && tobs_joined b) then Some F_shared_flight
       else Some 0
+  | FollowCase m v r1 r2 sets hdr2 =>
+      (* the second read began when the leader had committed r2: it must adopt r2 and answer at >= r2 *)
+      ok_if (match rev sets with s :: _ => s =? r2 | [] => false end && (r2 <=? hdr2))
   | OverlapCase r l b_resp sets a_scan a_nonempty =>
       (* A began when the leader had committed r: it must be served at >= r and see what was committed;
          a failed fetch must make B fail and must not touch the read revision *)
